@@ -51,6 +51,9 @@ def run(ctx):
         from props import c05
         ctx.cfg_tag = None
         core.shared(ctx, "R16.5", c05.check_timers_own_nothing, ctx, fx, cfg, "R16.5")
+        # R16.6 (shared with C05) ... and notices that it was released: both event loops leave on a closed mailbox (a stream-fed
+        # child whose loop never sees the closed mailbox outlives its parent while its stream stays open)
+        core.shared(ctx, "R16.6", c05.check_closed_mailbox_exit, ctx, fx, cfg, "R16.6")
     return core.finish(ctx)
 
 
